@@ -99,10 +99,11 @@ def render(tokens, layout=None, rng=None):
        nl:   probability of a line break at an eligible gap
        crlf: True -> every line end is CRLF; 'mixed' -> some
        indent: True -> random indentation after a break
-       break_before_quote: allow a line break or TAB directly before a literal (known finding K5)
+       break_before_quote: allow a literal as the very first character of a line (known finding K5)
     """
     layout = layout or {}
     out = []
+    seps = []
     prev = None
     for i, tok in enumerate(tokens):
         k, t = tok
@@ -121,6 +122,7 @@ def render(tokens, layout=None, rng=None):
                 w = "".join(rng.choice([ch.upper(), ch.lower()]) for ch in t)
         if prev is None:
             out.append(w)
+            seps.append("")
             prev = tok
             continue
         g = _gap_kind(prev, tok)
@@ -134,19 +136,24 @@ def render(tokens, layout=None, rng=None):
             else:
                 opts += [sep]
             sep = rng.choice(opts)
-            if "\t" in sep and (k == "L" or t[:1] == "'") and not layout.get("break_before_quote"):
-                sep = " "   # TAB directly before a quote: known finding C05:tab-or-newline-before-quote
+            quote = k == "L" or t[:1] == "'"
+            if quote and "\t" in sep and not layout.get("break_before_quote") and i >= 2 and seps[-1] == "" and tokens[i - 2][0] == "P" and tokens[i - 2][1] in ",()":
+                # word glued to a separator, then TAB, then a quote (')DEFAULT<TAB>'x''): the pinned re-spacing takes the separator for a
+                # part of the literal - known finding C05:newline-before-quote (its TAB branch); every other TAB before a literal is generated
+                sep = " "
             nlp = layout.get("nl") or 0
-            can_break = (
-                t.upper() not in LINE_START_WORDS
-                and not (k == "P" and t == ";")
-                and (layout.get("break_before_quote") or not (k == "L" or t[:1] in "'"))
-            )
+            can_break = t.upper() not in LINE_START_WORDS and not (k == "P" and t == ";")
             if nlp and can_break and rng.random() < nlp:
                 brk = rng.choice(["\n", "\n", " \n", "\n\n", "\n \n"]) if layout.get("blank_lines", True) else "\n"
                 ind = rng.choice(["", "  ", "    ", "\t"]) if layout.get("indent", True) else ""
-                sep = brk + ind
+                if quote and not ind and not layout.get("break_before_quote"):
+                    # a quote as the very first character of a line: known finding C05:newline-before-quote (calibrated: a TAB or an
+                    # indented continuation line before a literal are read correctly and are generated)
+                    ind = rng.choice(["  ", "\t", "    "]) if layout.get("indent", True) else None
+                if ind is not None:
+                    sep = brk + ind
         out.append(sep + w)
+        seps.append(sep)
         prev = tok
     text = "".join(out)
     return text
